@@ -2,11 +2,14 @@ module verif/harness
 
 go 1.20
 
-require github.com/resgateio/resgate v0.0.0
+require (
+	github.com/gorilla/websocket v1.4.2
+	github.com/posener/wstest v1.2.0
+	github.com/resgateio/resgate v0.0.0
+)
 
 require (
 	github.com/bsm/openmetrics v0.3.1 // indirect
-	github.com/gorilla/websocket v1.4.2 // indirect
 	github.com/jirenius/timerqueue v1.0.0 // indirect
 	github.com/rs/xid v1.3.0 // indirect
 )
